@@ -116,12 +116,18 @@ def load(repo=REPO, features=None, use_cache=True, verbose=True):
     os.makedirs(d, exist_ok=True)
     mj = os.path.join(d, "mir.json")
     wj = os.path.join(d, "wire.json")
-    run_mirfacts(repo, mj, features)
-    run_wirefacts(repo, wj)
-    with open(mj) as fh:
-        mir = json.load(fh)
-    with open(wj) as fh:
-        wire = json.load(fh)
+    try:
+        run_mirfacts(repo, mj, features)
+        run_wirefacts(repo, wj)
+        with open(mj) as fh:
+            mir = json.load(fh)
+        with open(wj) as fh:
+            wire = json.load(fh)
+    except FileNotFoundError:
+        # the cache directory was pruned by a concurrent run between extraction and reading: extract once more, uncached
+        if use_cache:
+            return load(repo, features, use_cache=False, verbose=verbose)
+        raise
     if not use_cache:
         shutil.rmtree(d, ignore_errors=True)
         if verbose:
@@ -132,10 +138,10 @@ def load(repo=REPO, features=None, use_cache=True, verbose=True):
         pickle.dump((mir, wire), fh, protocol=pickle.HIGHEST_PROTOCOL)
     os.replace(tmp, pk)
     os.remove(mj)
-    # keep the cache small: drop all but the 12 most recent entries
+    # keep the cache small: drop all but the 24 most recent entries
     try:
         ents = sorted((os.path.getmtime(os.path.join(CACHE, e)), e) for e in os.listdir(CACHE))
-        for _, e in ents[:-12]:
+        for _, e in ents[:-24]:
             shutil.rmtree(os.path.join(CACHE, e), ignore_errors=True)
     except OSError:
         pass
